@@ -108,7 +108,7 @@ impl Property for C07 {
     }
     fn runs(&self, tier: Tier) -> u64 {
         match tier {
-            Tier::Quick => 800,
+            Tier::Quick => 2_400,
             Tier::Thorough => 80_000,
         }
     }
@@ -354,6 +354,7 @@ impl Property for C07 {
             match rng.below(12) {
                 0 => port = *rng.pick(&[0x7FFDu16, 0xFFFD, 0xBFFD, 0x00FE, 0x001F, 0xFADF, 0xFBDF, 0xFFDF, 0xFEFE, 0x7FFE]),
                 1 => port &= !0x00E0, // Kempston-style low byte
+                3 => port = (port & 0x00FF) | (*rng.pick(&[0xFFu16, 0xFF, 0x00, 0x7F, 0xFE]) << 8), // no / every / one half-row
                 2 => {
                     if !claimed.is_empty() {
                         port = *rng.pick(&claimed) ^ *rng.pick(&[0u16, 0, 1, 2, 0x100, 0x8000]);
@@ -530,6 +531,22 @@ impl Property for C07 {
                         }
                         // bit 6 = EAR (low: no tape); bits 5 and 7 are not specified
                         if tape_playing {
+                            // whatever even address is used, bit 6 is the deck's level: compare with an
+                            // immediate read of the canonical port (an edge may fall between the two reads,
+                            // never between three successive pairs: pulses last at least 667 T)
+                            let canon = *[0x7FFEu16, 0xBFFE, 0xDFFE, 0xEFFE, 0xF7FE, 0xFBFE].iter().find(|p| !claimed.contains(p)).unwrap_or(&0xFDFE);
+                            let mut agree = ((e.verif_bus().read_io(canon) ^ got) >> 6) & 1 == 0;
+                            for _ in 0..2 {
+                                if agree {
+                                    break;
+                                }
+                                let x = cpu_io(&mut e, port, None)?;
+                                let y = e.verif_bus().read_io(canon);
+                                agree = ((x ^ y) >> 6) & 1 == 0;
+                            }
+                            if !agree {
+                                return Err(Fail::new("C07.ear_port", &format!("machine={},hi_ff={}", machine, (port >> 8 == 0xFF) as u8), format!("while a pilot tone plays, bit 6 of IN {:04X} disagrees with bit 6 of IN {:04X} in three successive pairs of reads", port, canon)));
+                            }
                             ear_seen[((got >> 6) & 1) as usize] += 1;
                             if ear_first_t.is_none() {
                                 ear_first_t = Some(abs_t);
